@@ -574,7 +574,7 @@ func checkC17(e *Env) {
 	e.WriteEvidence("exploration", map[string]any{
 		"evaluations":                 pairs,
 		"distinct_nontrivial":         dist.Len(),
-		"rule":                        "a case is one (target file, upstream body) pair; one run of the tool (built from the tree with the verif fetch-redirect hook, run in a scratch directory against a loopback HTTP server operated by the parent) yields ten pairs; inputs: the canonical lists, and seeded LF-separated files of letters and combining marks (Latin, Greek, Cyrillic, Hebrew, Arabic, Devanagari, Thai, Hangul jamo and syllables, kana, CJK incl. plane 2, ligatures, full-width and mathematical letters; marks also leading, doubled and in non-canonical order; Go keywords; words up to 3000 letters) with 0, 1, 2, 17, 300, 2048 and 5000 words, with and without trailing newline and with blank lines at start, middle, end and in runs; every generated file is parsed and type-checked (all ten as one package), its literals compared byte-for-byte with the non-empty input lines, its variable name compared with the committed file's, the request log compared with the ten expected paths; runs with ten 2048-word inputs are additionally rebuilt into a scratch copy of the repository whose API must emit, per language, the words served under that language's file name (when it does not, the same words written into the package by the harness are observed as a control: the tool is blamed only when the control is clean); non-trivial = every pair; distinct by (file, body)",
+		"rule":                        "a case is one (target file, upstream body) pair; one run of the tool (built from the tree with the verif fetch-redirect hook, run in a scratch directory against a loopback HTTP server operated by the parent) yields ten pairs; inputs: the canonical lists, and seeded LF-separated files of letters and combining marks (Latin, Greek, Cyrillic, Hebrew, Arabic, Devanagari, Thai, Hangul jamo and syllables, kana, CJK incl. plane 2, ligatures, full-width and mathematical letters; marks also leading, doubled and in non-canonical order; Go keywords; words up to 3000 letters) with 0, 1, 2, 17, 300, 2048 and 5000 words, with and without trailing newline and with blank lines at start, middle, end and in runs; every generated file is parsed and type-checked (all ten as one package), its literals compared byte-for-byte with the non-empty input lines, its variable name compared with the committed file's, the request log compared with the ten expected paths; runs with ten 2048-word inputs are additionally rebuilt into a scratch copy of the repository whose API must emit, per language, the words served under that language's file name (when it does not, the same words written into the package by the harness are observed as a control: the tool is blamed only when the control is clean); fault runs in which the first download of one to three files is cut inside the body (full Content-Length declared): a tool that gives up is not judged, one that reports success is judged like any other run; non-trivial = every pair; distinct by (file, body)",
 		"samples":                     smp.List(),
 		"tool_runs":                   obs.Get("tool_runs"),
 		"observations":                obs.Map(),
